@@ -109,3 +109,26 @@ package aggregation
 //@              (forall r: str :: forall c: str :: cell(s, r, c) == old(cell(s, r, c)) + (if r == tf1(ele, s.delim) && c == tf0(ele, s.delim) then atoi(tf2(ele, s.delim)) else 0)) && s.errors == old(s.errors)
 //@   ensures [parse-error] str_index(ele, s.delim) >= 0 && str_index(ele[tn1(ele, s.delim):], s.delim) >= 0 && !int_ok(tf2(ele, s.delim)) && old(s.errors) < 18446744073709551615 ==>
 //@              (forall r: str :: forall c: str :: cell(s, r, c) == old(cell(s, r, c))) && s.errors == old(s.errors) + 1
+
+// ---- ordered insertion helpers of the sub-key counter ----
+// ret is slice with ele inserted at position idx (elements behind it shifted by one)
+//@ func insertAti64
+//@   requires 0 <= idx && idx <= len(slice)
+//@   ensures len(ret) == len(slice) + 1 && ret[idx] == ele
+//@   ensures forall k in [0, idx) :: ret[k] == old(slice[k])
+//@   ensures forall k in [idx + 1, len(ret)) :: ret[k] == old(slice[k - 1])
+//@ func insertAt
+//@   requires 0 <= idx && idx <= len(slice)
+//@   ensures len(ret) == len(slice) + 1 && ret[idx] == ele
+//@   ensures forall k in [0, idx) :: ret[k] == old(slice[k])
+//@   ensures forall k in [idx + 1, len(ret)) :: ret[k] == old(slice[k - 1])
+// insertion keeps a strictly sorted list strictly sorted and reports the position
+//@ pred sorted_strict(a) := forall i in [0, len(a)) :: forall j in [i + 1, len(a)) :: a[i] < a[j]
+//@ func insertAlphanumeric
+//@   requires sorted_strict(slice) && (forall k in [0, len(slice)) :: slice[k] != ele)
+//@   ensures 0 <= idx && idx <= len(slice) && len(ret) == len(slice) + 1 && ret[idx] == ele
+//@   ensures forall k in [0, idx) :: ret[k] == old(slice[k]) && old(slice[k]) < ele
+//@   ensures forall k in [idx + 1, len(ret)) :: ret[k] == old(slice[k - 1]) && ele < old(slice[k - 1])
+//@   ensures sorted_strict(ret)
+//@   loop 1 invariant forall k in [0, rangeindex + 1) :: slice[k] < ele
+//@   loop 1 invariant forall k in [0, len(slice)) :: slice[k] == old(slice[k])
